@@ -74,14 +74,14 @@ def verdictText : Spec.Amf.Verdict → String
 
 def convo : Handler
   | prop :: mode :: rest =>
-    if rest.length != 23 || (prop != "C01" && prop != "C02") || (mode != "bin" && mode != "proc") then badOp else
+    if rest.length != 23 || (prop != "C01" && prop != "C02") || (mode != "bin" && mode != "proc" && mode != "hist") then badOp else
     match parseCfg (rest.take 17), (rest.drop 17) with
     | some cfg, [abba, choices, dls, xul, xrep, xexit] =>
       match hexArg abba, parseChoices choices, hexList dls, hexList xul, parseReports xrep with
       | some abba, some chs, some dls, some xul, some xrep =>
-        let t := emulate cP cE cfg dls
+        let t := if mode = "hist" then emulateHist cP cE cfg dls else emulate cP cE cfg dls
         let life := prop == "C02"
-        let scfg := specCfg cfg abba
+        let scfg := { specCfg cfg abba with hist := mode == "hist" }
         let mrep : Option (List Spec.Amf.Reported) :=
           if mode = "bin" then none else some (t.reports.map fun r => { ip := r.ip, teid := r.teid, upf := r.upf })
         let vModel := Spec.Amf.judge cP life scfg chs t.uls mrep (exitText t.outcome == "0")
